@@ -121,6 +121,19 @@ func vAssertKF(b bool, id string, kf string, region bool) {
 	}
 }
 
+func vAssertKF2(b bool, id string, kf1 string, r1 bool, kf2 string, r2 bool) {
+	if !b {
+		switch {
+		case r1 && vKFOpen(kf1):
+			vFailures = append(vFailures, id+"@"+kf1)
+		case r2 && vKFOpen(kf2):
+			vFailures = append(vFailures, id+"@"+kf2)
+		default:
+			vFailures = append(vFailures, id)
+		}
+	}
+}
+
 func vKFOpen(kf string) bool {
 	for _, k := range vRF.KFOpen {
 		if k == kf {
@@ -294,6 +307,9 @@ func vNondetSlice[T vScalar](name string, n int) []T {
 	}
 	return r
 }
+
+// vSel reads xs[i] (i must be in range; symbolic i becomes an if-then-else chain, no fork).
+func vSel[T vScalar](xs []T, i int) T { return xs[i] }
 
 func vProd(s []int) int {
 	p := 1
